@@ -677,7 +677,7 @@ def to_matched_score(
         # hack for notes with negative durations
         n_dur = max(n["duration_sec"], 60 / 200 * 0.25)
         pair_info = (sn_on, sn_dur, sn["pitch"], n["onset_sec"], n_dur, n["velocity"])
-        if include_score_markings:
+        if include_score_markings and not isinstance(score, np.ndarray):
             pair_info += (sn["voice"].item(),)
             pair_info += tuple(
                 [sn[field].item() for field in sn.dtype.names if "feature" in field]
